@@ -2,6 +2,7 @@ package sim
 
 import (
 	"bytes"
+	"regexp"
 	"encoding/json"
 	"fmt"
 	"sort"
@@ -103,6 +104,9 @@ func c10Gen(seed uint64, tier string) any {
 	for i := 0; i < 4; i++ {
 		sc.Faults = append(sc.Faults, Corruption{K: "garbage", N: int(r.U64() >> 33)})
 	}
+	for i := 0; i < 24; i++ {
+		sc.Faults = append(sc.Faults, Corruption{K: "num", N: int(r.U64() >> 33)})
+	}
 	return sc
 }
 
@@ -112,7 +116,7 @@ var schemaDocs = []string{
 	`{"t":7,"v":{"dict":null}}`, `{"t":7,"v":{"dict":{"a":null}}}`, `{"t":7}`, `{"t":7,"v":null}`, `{"t":7,"v":{}}`, `{"t":7,"v":{"dict":[]}}`,
 	`{"t":5}`, `{"t":5,"v":null}`, `{"t":5,"v":{"expr":null}}`, `{"t":5,"v":{"expr":"(","attrs":null}}`, `{"t":5,"v":{"expr":"x","attrs":{"x":null}}}`, `{"t":5,"v":{"expr":"cv"}}`,
 	`{"t":8}`, `{"t":8,"v":null}`, `{"t":8,"v":{"expr":"return (","name":"f","params":null}}`, `{"t":8,"v":{"expr":"p","name":"","params":["p","p"]}}`, `{"t":8,"v":{"params":[null]}}`,
-	`{"t":0}`, `{"t":0,"v":null}`, `{"t":0,"v":"1"}`, `{"t":0,"v":1.5}`, `{"t":0,"v":99999999999999999999}`, `{"t":1}`, `{"t":1,"v":"x"}`, `{"t":1,"v":1e999}`, `{"t":2}`, `{"t":2,"v":5}`, `{"t":2,"v":null}`,
+	`{"t":0}`, `{"t":0,"v":null}`, `{"t":0,"v":"1"}`, `{"t":0,"v":1.5}`, `{"t":0,"v":1e400}`, `{"t":0,"v":"1e400"}`, `{"t":0,"v":-1e999}`, `{"t":1,"v":"1e400"}`, `{"t":1,"v":-1e999}`, `{"t":0,"v":99999999999999999999}`, `{"t":1}`, `{"t":1,"v":"x"}`, `{"t":1,"v":1e999}`, `{"t":2}`, `{"t":2,"v":5}`, `{"t":2,"v":null}`,
 	`{"t":3}`, `{"t":3,"v":1}`, `{"t":11}`, `{"t":20}`, `{"t":21}`, `{"t":-1}`, `{"t":99,"v":{"list":[]}}`, `{"t":"6","v":{"list":[]}}`, `{"t":6.5}`, `{"t":null}`, `{}`, `null`, `[]`, `1`, `"x"`, `true`,
 	`{"t":6,"t":0,"v":1}`, `{"t":0,"v":1,"v":{"list":[]}}`, `{"t":6,"v":{"list":[]},"v":3}`, `{"T":6,"V":{"LIST":[null]}}`,
 }
@@ -217,6 +221,25 @@ func structFault(base string, seed int) string {
 	return string(b)
 }
 
+var numAlternatives = []string{
+	"1e400", "-1e999", "1e-400", "1E400", "0.5", "-0.5", "1.0", "1e3", "\"12\"", "\"1e400\"", "\"NaN\"", "9223372036854775807", "9223372036854775808", "-9223372036854775809",
+	"99999999999999999999999999", "1.7976931348623157e308", "1.7976931348623159e308", "-0", "0e0", "null", "true", "[1]", "{}", "01", "1.", ".5", "+1", "0x10", "1e", "NaN", "Infinity",
+}
+
+var reNumTok = regexp.MustCompile(`(?:[:\[,])(-?\d+(?:\.\d+)?(?:[eE][+-]?\d+)?)`)
+
+// numFault replaces one numeric token of the document (a value, or a type tag) by another number
+// spelling: exponents out of float range, fractions where an int is expected, numbers as strings, ...
+func numFault(base string, seed int) string {
+	r := NewRng(uint64(seed))
+	locs := reNumTok.FindAllStringSubmatchIndex(base, -1)
+	if len(locs) == 0 {
+		return `{"t":0,"v":` + Pick(r, numAlternatives) + `}`
+	}
+	l := locs[r.Intn(len(locs))]
+	return base[:l[2]] + Pick(r, numAlternatives) + base[l[3]:]
+}
+
 func expandFaults(sc *C10Scenario) []string {
 	var docs []string
 	for _, f := range sc.Faults {
@@ -245,6 +268,8 @@ func expandFaults(sc *C10Scenario) []string {
 			docs = append(docs, structFault(sc.Base, f.N))
 		case "garbage":
 			docs = append(docs, garbage(NewRng(uint64(f.N))))
+		case "num":
+			docs = append(docs, numFault(sc.Base, f.N))
 		case "raw":
 			docs = append(docs, f.Doc)
 		}
